@@ -146,6 +146,9 @@ func runC20L2(r *core.Run) (*core.Violation, func() *core.Violation) {
 			ev := outbox[0]
 			outbox = outbox[1:]
 			if typed, ok := x.viaChain(ev); ok {
+				if r.KeepLog {
+					r.Logf("    injector publishes %T %+v", typed, typed)
+				}
 				if err := x.bus.Publish(typed); err != nil {
 					return
 				}
@@ -155,6 +158,8 @@ func runC20L2(r *core.Run) (*core.Violation, func() *core.Violation) {
 	})
 	defer func() { stopInject = true }()
 	loop.faults = x.faults
+	loop.idle = func(g *simrt.G) bool { return g.Name == "chain-events" && len(outbox) == 0 }
+	loop.idleSteps = r.Bool(40, "knob.l2-sparse-schedule")
 	loop.failable = func(c *Call) bool { return c.Method == "Query.Deployment" }
 	loop.extra = func() []l2Stim {
 		var st []l2Stim
@@ -227,7 +232,10 @@ func runC20L2(r *core.Run) (*core.Violation, func() *core.Violation) {
 			st = append(st, l2Stim{"sync", 2, func() {
 				loop.drainNoComplete(60)
 				x.s.Settle()
-				if len(simrt.Runnable()) == 0 {
+				// quiescent with no call parked at the harness: no goroutine waits for anything from outside, so
+				// the service loop sits in its select with its subscription drained (a call still parked -
+				// a watchdog's close-bid, say - may have the service blocked behind it with events unread)
+				if len(loop.busyRunnable()) == 0 && len(x.s.Pending()) == 0 {
 					x.heldLoose = map[string]bool{}
 					for k := range x.leasesHeld {
 						x.heldLoose[k] = true
@@ -236,7 +244,7 @@ func runC20L2(r *core.Run) (*core.Violation, func() *core.Violation) {
 					r.Count("probe:l2-sync-points")
 					r.Logf("step %d: sync point (held: %d)", x.s.Step, len(x.leasesHeld))
 				} else {
-					r.Logf("step %d: sync attempted, still runnable: %v", x.s.Step, simrt.Runnable())
+					r.Logf("step %d: sync attempted, still runnable: %v", x.s.Step, loop.busyRunnable())
 				}
 			}})
 		}
